@@ -166,7 +166,12 @@ def designs(tier):
     from examples.ex04_xcel.ProcXcel import ProcXcel
     from examples.ex03_proc.ProcRTL import ProcRTL
     return ProcXcel(ProcRTL, ChecksumXcelRTL)
-  add('ex04.ChecksumXcelRTL', xcel, cycles=(30 if not th else 100), reset=1)
+  def xreq(rng, w):
+    # register numbers 0..5 (reg_file has 6 entries, a READ of 6 / 7 is an IndexError of the real block); 4 = go
+    from pymtl3.stdlib.ifcs import mk_xcel_req_msg
+    m = mk_xcel_req_msg(5, 32)(rng.getrandbits(1), rng.choice([0, 1, 2, 3, 4, 4, 5]) + 8 * rng.choice([0, 0, 0, 1, 3]), rng.choice([0, 1, 0xffffffff, rng.getrandbits(32)]))
+    return int(m.to_bits())
+  add('ex04.ChecksumXcelRTL', xcel, cycles=(30 if not th else 100), reset=1, gen=[(r'xcel\.req\.msg$', xreq)])
   add('ex04.ProcXcel(ProcRTL,ChecksumXcelRTL)', procxcel, cycles=100, reset=2, gen=[(r'imem\.resp\.msg$', inst)], thorough_only=True)
   # components that keep Python state next to their signals: the translator must refuse them
   def src():
@@ -362,7 +367,19 @@ def first_diff(x, y):
         return k, ('after sim_eval_combinational', 'after sim_tick')[ph], [i for i, (m, n) in enumerate(zip(u, v)) if m != n]
   return None
 
-def one_design(ck, rng, name, factory, opts, ncycles, n_ext, flows, rec):
+def failing_cycle(factory, td, cycles):
+  try:
+    rs = LibSim(factory, td, 'default')
+    for k, ins in enumerate(cycles):
+      try:
+        rs.set_inputs(ins); rs.top.sim_eval_combinational(); rs.top.sim_tick()
+      except Exception:
+        return k
+  except Exception:
+    return None
+  return None
+
+def one_design(ck, rng, name, factory, opts, ncycles, n_ext, flows, rec, _cycles=None, _retry=None):
   t0 = time.time()
   # 1. translate a fresh elaborated instance
   try:
@@ -385,7 +402,7 @@ def one_design(ck, rng, name, factory, opts, ncycles, n_ext, flows, rec):
     top2 = factory(); top2.elaborate()
     if leanio.line('x', pymtl2rtl.Translator(top2).run().sexp()) != leanio.line('x', td.sexp()):
       raise InfraError(f'{name}: two translations of the same design differ')
-  cycles = gen_inputs(rng, td, opts, ncycles)
+  cycles = _cycles if _cycles is not None else gen_inputs(rng, td, opts, ncycles)
   ref = LibRefSim(tr)
   try:
     ref_trace = [ref.cycle(c) for c in cycles]
@@ -419,10 +436,16 @@ def one_design(ck, rng, name, factory, opts, ncycles, n_ext, flows, rec):
       runs.append((f'forced-simple-{i}', [('b', x) for x in tr.expand_order(order)], True, fo, tr2))
   except InfraError: raise
   except Exception as e:
-    rec.update(status='real-simulation-raised', reason=f'{type(e).__name__}: {e}'[:300])
     ck.hist('library_real_exception', type(e).__name__)
+    # an input sequence the real blocks do not survive (e.g. a variable index beyond a list whose length is not a power of
+    # two: IndexError): keep the prefix before the failing cycle and try once more
+    k = failing_cycle(factory, td, cycles) if _retry is None else None
+    if k is not None and k >= 3:
+      return one_design(ck, rng, name, factory, opts, k, n_ext, flows, rec, _cycles=cycles[:k], _retry={'at_cycle': k, 'exception': f'{type(e).__name__}: {e}'[:200]})
+    rec.update(status='real-simulation-raised', reason=f'{type(e).__name__}: {e}'[:300])
     return None
   rec['schedules'] = [r[0] for r in runs]
+  if _retry is not None: rec['inputs_truncated'] = _retry
   rec['scc_in_default_schedule'] = not runs[0][2]
   return td, cycles, ref_trace, runs, ref
 
